@@ -4,7 +4,7 @@ CONSTANTS
   Gate = FALSE
   EnvGate = FALSE
   CmdKinds = {"shoot", "copy"}
-  MaxCmd = 2
+  MaxCmd = 3
   HSScript <- HSNone
   MaxHS = 1
 INVARIANTS RspOnce RspAfterAll StageOrder EachUnitOnce Sane InOrder AllServed NoPanic
